@@ -345,17 +345,7 @@ func buildHandlers() map[string]handler {
 		h[n] = func(e *Exec, fn *ssa.Function, a []Value) Value { panic(pathEnd{"exit", fn.String()}) }
 	}
 	// ---- time ----
-	h["time.Now"] = func(e *Exec, fn *ssa.Function, a []Value) Value {
-		t := e.freshVar("now", SInt)
-		e.inputs = append(e.inputs, inputRec{Kind: "clock", Name: "now", t: t})
-		if e.lastNow != nil {
-			e.assertPC(Le(e.lastNow, t)) // the wall clock as read by one process is non-decreasing in this model
-		}
-		e.assertPC(Le(K(0), t))
-		e.assertPC(Lt(t, KBig(pow2[62])))
-		e.lastNow = t
-		return e.mkTime(resultType(fn, 0), t)
-	}
+	h["time.Now"] = func(e *Exec, fn *ssa.Function, a []Value) Value { return e.nowTime(resultType(fn, 0)) }
 	h["time.Unix"] = func(e *Exec, fn *ssa.Function, a []Value) Value {
 		sec, nsec := a[0].(*Term), a[1].(*Term)
 		return e.mkTime(resultType(fn, 0), RawAdd(RawMul(sec, K(1000000000)), nsec))
@@ -386,8 +376,8 @@ func buildHandlers() map[string]handler {
 		return opaqueStr(e, "dur")
 	}
 	h["time.Since"] = func(e *Exec, fn *ssa.Function, a []Value) Value {
-		now := h["time.Now"](e, e.sh.timeNow, nil)
-		return Sat64(RawSub(e.timeNS(now), e.timeNS(a[0])))
+		now := e.nowTime(a[0].(*StructObj).typ)
+		return e.satT(RawSub(e.timeNS(now), e.timeNS(a[0])))
 	}
 	h["time.Sleep"] = func(e *Exec, fn *ssa.Function, a []Value) Value {
 		e.yield(func() bool { return true }, nil)
@@ -635,6 +625,60 @@ func buildHandlers() map[string]handler {
 	concStr("strings.HasSuffix", func(a []string) Value { return B(strings.HasSuffix(a[0], a[1])) })
 	concStr("strings.Contains", func(a []string) Value { return B(strings.Contains(a[0], a[1])) })
 	concStr("strings.Index", func(a []string) Value { return K(int64(strings.Index(a[0], a[1]))) })
+	strSlice := func(e *Exec, parts []string) Value {
+		sl := e.newSlice(types.Typ[types.String], len(parts), len(parts))
+		for i, p := range parts {
+			sl.arr.elems[i].v = Str{conc: p}
+		}
+		return sl
+	}
+	h["strings.Split"] = func(e *Exec, fn *ssa.Function, a []Value) Value {
+		x, y := a[0].(Str), a[1].(Str)
+		if !x.isConc() || !y.isConc() {
+			if f := e.prog.ImportedPackage(zzPkg); f != nil && f.Func("StringsSplit") != nil && x.atom == nil && y.atom == nil {
+				return e.call(f.Func("StringsSplit"), a, nil)
+			}
+			panic(unsupported("strings.Split on symbolic string"))
+		}
+		return strSlice(e, strings.Split(x.conc, y.conc))
+	}
+	h["strings.SplitN"] = func(e *Exec, fn *ssa.Function, a []Value) Value {
+		x, y := a[0].(Str), a[1].(Str)
+		n, ok := a[2].(*Term).ConstInt64()
+		if !x.isConc() || !y.isConc() || !ok {
+			panic(unsupported("strings.SplitN on symbolic string"))
+		}
+		return strSlice(e, strings.SplitN(x.conc, y.conc, int(n)))
+	}
+	h["strings.Fields"] = func(e *Exec, fn *ssa.Function, a []Value) Value {
+		x := a[0].(Str)
+		if !x.isConc() {
+			panic(unsupported("strings.Fields on symbolic string"))
+		}
+		return strSlice(e, strings.Fields(x.conc))
+	}
+	h["strings.Replace"] = func(e *Exec, fn *ssa.Function, a []Value) Value {
+		x, o, n := a[0].(Str), a[1].(Str), a[2].(Str)
+		k, ok := a[3].(*Term).ConstInt64()
+		if !x.isConc() || !o.isConc() || !n.isConc() || !ok {
+			if f := e.prog.ImportedPackage(zzPkg); f != nil && f.Func("StringsReplace") != nil && x.atom == nil {
+				return e.call(f.Func("StringsReplace"), a, nil)
+			}
+			panic(unsupported("strings.Replace on symbolic string"))
+		}
+		return Str{conc: strings.Replace(x.conc, o.conc, n.conc, int(k))}
+	}
+	h["time.ParseDuration"] = func(e *Exec, fn *ssa.Function, a []Value) Value {
+		x := a[0].(Str)
+		if !x.isConc() {
+			panic(unsupported("time.ParseDuration on symbolic string"))
+		}
+		d, err := parseDuration(x.conc)
+		if err != nil {
+			return Tuple{K(0), mkOpaqueErr("time.ParseDuration", nil)}
+		}
+		return Tuple{K(d), Iface{}}
+	}
 	concStr("strconv.Itoa", nil)
 	h["strconv.Itoa"] = func(e *Exec, fn *ssa.Function, a []Value) Value {
 		if v, ok := a[0].(*Term).ConstInt64(); ok {
@@ -932,4 +976,17 @@ func (e *Exec) unitMul(x, y *Term) *Term {
 	e.assertPC(Or(Or(pos, neg), FIsNaN(o)))
 	e.sh.addNote("abstraction: random-draw * float replaced by an interval-constrained float")
 	return p
+}
+
+// nowTime: a fresh clock reading; the wall clock as read by one process is non-decreasing in this model.
+func (e *Exec) nowTime(t types.Type) Value {
+	v := e.freshVar("now", SInt)
+	e.inputs = append(e.inputs, inputRec{Kind: "clock", Name: "now", t: v})
+	if e.lastNow != nil {
+		e.assertPC(Le(e.lastNow, v))
+	}
+	e.assertPC(Le(K(0), v))
+	e.assertPC(Lt(v, KBig(pow2[62])))
+	e.lastNow = v
+	return e.mkTime(t, v)
 }
